@@ -220,6 +220,27 @@ struct handles_t
 };
 static handles_t* g_handles = nullptr;
 
+// setter calls that the declaration rules must REJECT (parser_error), made right after a declaration and ignored by the caller as
+// a program with a try/catch around its set-up would: the entry must be exactly as before.  An attempt that is accepted is
+// reported (the model never prints this), one that is rejected must leave no trace (the parse results tell).
+template <typename Opt>
+static std::string rejected_setter_attempts(Opt& x, bool has_sh, const std::string& sh, bool has_env, const std::string& env)
+{
+    auto must_raise = [&](const char* what, auto call) -> std::string {
+        try { call(); }
+        catch (const nitro::options::parser_error&) { return ""; }
+        return std::string("SETTER-ACCEPTED ") + what;
+    };
+    std::string r;
+    if (has_env) { r = must_raise("env(other)", [&] { x.env(env + "_OTHER"); }); if (!r.empty()) return r; }
+    if (has_sh) { r = must_raise("short_name(other)", [&] { x.short_name(sh == "q" ? "w" : "q"); }); if (!r.empty()) return r; }
+    r = must_raise("short_name(\"\")", [&] { x.short_name(""); }); if (!r.empty()) return r;
+    r = must_raise("short_name(\"ab\")", [&] { x.short_name("ab"); }); if (!r.empty()) return r;
+    r = must_raise("metavar(\"\")", [&] { x.metavar(""); });
+    return r;
+}
+static std::string g_setter_report;
+
 static void declare_into(nitro::options::parser& p, const decl_t& d, std::set<std::string>& have)
 {
     std::size_t k = have.size();
@@ -238,6 +259,7 @@ static void declare_into(nitro::options::parser& p, const decl_t& d, std::set<st
         if (o.has_env) { auto& r = c->env(o.env); if (fluent) c = &r; }
         if (o.has_def) { auto& r = c->default_value(o.def); if (fluent) c = &r; }
         if (o.opt) c->optional();
+        if (g_setter_report.empty()) g_setter_report = rejected_setter_attempts(x, o.has_sh, o.sh, o.has_env, o.env);
     };
     auto decl_m = [&](const mdecl& o) {
         if (!have.insert(o.name).second) return;
@@ -249,6 +271,7 @@ static void declare_into(nitro::options::parser& p, const decl_t& d, std::set<st
         if (o.has_env) { auto& r = c->env(o.env); if (fluent) c = &r; }
         if (o.has_def) { auto& r = c->default_value(o.def); if (fluent) c = &r; }
         if (o.opt) c->optional();
+        if (g_setter_report.empty()) g_setter_report = rejected_setter_attempts(x, o.has_sh, o.sh, o.has_env, o.env);
     };
     auto decl_t_ = [&](const tdecl& o) {
         if (!have.insert(o.name).second) return;
@@ -262,6 +285,7 @@ static void declare_into(nitro::options::parser& p, const decl_t& d, std::set<st
         if ((o.def == 0 || o.def == 1) && (((h >> 11) ^ o.name.size()) & 1)) { auto& r = c->default_value(o.def == 1); if (fluent) c = &r; }
         else { auto& r = c->default_value(o.def); if (fluent) c = &r; }
         if (o.rev) c->allow_reverse();
+        if (g_setter_report.empty()) g_setter_report = rejected_setter_attempts(x, o.has_sh, o.sh, o.has_env, o.env);
     };
     auto all_o = [&] { std::size_t n = d.os.size(); for (std::size_t i = 0; i < n; i++) decl_o(d.os[(i + h % (n ? n : 1)) % n]); };
     auto all_m = [&] { std::size_t n = d.ms.size(); for (std::size_t i = 0; i < n; i++) decl_m(d.ms[(n - 1 - i + (h / 7) % (n ? n : 1)) % n]); };
@@ -366,12 +390,35 @@ static std::string parse_all_overloads(nitro::options::parser& q, const std::vec
     return r1;
 }
 
+// a result object kept by the caller must keep the positionals it reported, whatever the parser does afterwards (they are the
+// result's own copy); options and toggles are read through the parser's objects by design and are not looked at here
+struct kept_result_t
+{
+    std::unique_ptr<nitro::options::arguments> a;
+    std::vector<std::string> pos;
+    bool enabled = false;
+    std::string changed;
+    void check()
+    {
+        if (a && changed.empty() && a->positionals() != pos) changed = "EARLIER-RESULT-CHANGED positionals";
+    }
+    void keep(const nitro::options::arguments& r)
+    {
+        check();
+        a = std::make_unique<nitro::options::arguments>(r);
+        pos = r.positionals();
+    }
+    void reset() { a.reset(); pos.clear(); changed.clear(); enabled = false; }
+};
+static kept_result_t g_kept;
+
 static std::string one_parse(nitro::options::parser& q, const decl_t& d, const std::vector<std::string>& args)
 {
     return parse_all_overloads(q, args, [&](auto call) -> std::string {
         try
         {
             auto a = call();
+            if (g_kept.enabled) g_kept.keep(a);
             return obs_ok(a, d.os, d.ms, d.ts, q, false);
         }
         catch (const nitro::options::parsing_error&) { return "USER"; }
@@ -406,6 +453,7 @@ static std::string run_steps(const std::vector<std::string>& w)
                 // move-construct the parser into a new object and destroy the old one
                 auto q = std::make_unique<nitro::options::parser>(std::move(*p));
                 p = std::move(q);
+                g_kept.check();
                 continue;
             }
             if (st.size() < 2 || st[1] != ':') return "BADCASE";
@@ -448,7 +496,9 @@ static std::string run_steps(const std::vector<std::string>& w)
                 auto args = unwire_strs(arg);
                 if (!first) out += " | ";
                 first = false;
+                g_kept.enabled = true;
                 out += one_parse(*p, cur, args);
+                g_kept.enabled = false;
                 nitro::options::parser fresh("app", "about");
                 std::set<std::string> none;
                 g_handles = nullptr;
@@ -461,6 +511,10 @@ static std::string run_steps(const std::vector<std::string>& w)
     }
     catch (const nitro::options::parser_error&) { out = "DECL-DEV"; }
     for (auto& n : set_names) unsetenv(n.c_str());
+    if (!g_setter_report.empty()) { out = g_setter_report; g_setter_report.clear(); }
+    g_kept.check();
+    if (!g_kept.changed.empty()) out = g_kept.changed;
+    g_kept.reset();
     return out;
 }
 
@@ -588,6 +642,7 @@ static std::string run_case(const std::vector<std::string>& w)
     }
     catch (const nitro::options::parser_error&) { out = "DECL-DEV"; }
     for (auto& n : set_names) unsetenv(n.c_str());
+    if (!g_setter_report.empty()) { out = g_setter_report; g_setter_report.clear(); }
     return out;
 }
 int main(int argc, char** argv) { return vh::driver_main(argc, argv, run_case); }
